@@ -461,6 +461,13 @@ def schedule_last_batch(ctx, runner, cases, thorough):
         for c in mux:
             k += 1
             runner.add(c, 2 if k % 2 else 8, 3, False, False, k, tag="lastbatch")
+    # obiannotate discards records inside the batches: the writer may receive an emptied batch first (it chooses
+    # FASTA or FASTQ from the first batch it sees).  Which batch arrives first is a race: such cases are repeated too.
+    drops = [c for c in cases if c["tool"] == "annot" and 1 <= len(c["out"]) <= 3]
+    for c in vlib.sample(ctx.rng, drops, 30):
+        for _ in range(reps):
+            k += 1
+            runner.add(c, 2 if k % 2 else 8, 1 if k % 4 < 2 else 3, True, False, k, tag="emptied")
 
 
 def main(ctx):
@@ -496,7 +503,7 @@ def main(ctx):
     if failed_first:
         ctx.extra["sporadic_process_failure_sample"] = failed_first[0]
     for need in ("bin/grep", "bin/grep/save", "bin/grep/paired", "bin/grep/paired/save", "bin/annot", "bin/dist", "bin/mux",
-                 "bin/grep/save/lastbatch", "bin/grep/paired/save/lastbatch", "bin/mux/lastbatch"):
+                 "bin/grep/save/lastbatch", "bin/grep/paired/save/lastbatch", "bin/mux/lastbatch", "bin/annot/emptied"):
         ctx.expect_vacuity("class " + need, ctx.classes.get(need, 0))
     ctx.samples.append({"case": {k: v for k, v in cases[len(cases) // 2].items() if k != "out"}})
 
@@ -513,7 +520,8 @@ def main(ctx):
     # T: random command lines x random records, judged by OptTrace ------------------------------------
     trace, tbin = ctx.path("trace.ndjson"), ctx.path("trace_bin.ndjson")
     ctx.harness(["record", "C16", "--out", trace, "--n", 4000 if thorough else 700], timeout=1500)
-    ctx.harness(["record", "C16", "--out", tbin, "--n", 1200 if thorough else 120, "--opt", "bindir=" + runner.bindir], timeout=1500)
+    ctx.harness(["record", "C16", "--out", tbin, "--n", 1200 if thorough else 120, "--opt", "bindir=" + runner.bindir,
+                 "--opt", "big=%d" % (12 if thorough else 2)], timeout=1500)    # big: files of 5000 reads (> 1 MiB: several reader batches)
     with open(trace, "a") as f:
         f.write(open(tbin).read())
     judge_trace(ctx, trace)
@@ -566,10 +574,14 @@ def replay_one(ctx):
     configuration; library level: the case through the harness; trace event: OptTrace on the recorded event)."""
     blob = json.load(open(ctx.replay))
     case = blob["case"]
-    if "recs" in case:
-        tr = ctx.path("trace.ndjson")
-        vlib.write_ndjson(tr, [case])
-        judge_trace_one(ctx, tr)
+    if "recs" in case:      # a rejected trace event: run it again on the current code, OptTrace judges what comes out now
+        old, tr = ctx.path("event.ndjson"), ctx.path("trace.ndjson")
+        vlib.write_ndjson(old, [case] * 3)
+        args = ["record", "C16", "--out", tr, "--opt", "rerun=" + old]
+        if case.get("level") == "bin":
+            args += ["--opt", "bindir=" + ctx.build_cmds(TOOLS)]
+        ctx.harness(args)
+        judge_trace(ctx, tr)
         return ctx.finish()
     cases_path = ctx.path("cases.ndjson")
     ctx.tlc_model("OptCases", "OptCases_data.cfg", env={"VERIF_CASES": cases_path, "VERIF_SEED": 1}, timeout=600)
@@ -593,10 +605,3 @@ def replay_one(ctx):
                     runner.add(clean, cpu, bs, fq, save, k)
     runner.run()
     return ctx.finish()
-
-
-def judge_trace_one(ctx, tr):
-    events, rejects = ctx.trace_validate("OptTrace", "OptTrace.cfg", tr)
-    for r in rejects:
-        ev = events[r["l"] - 1]
-        ctx.violation("C16.trace.%s.%s" % (ev["tool"], r["why"]), trace_class(ev), "recorded event rejected again", ev)
